@@ -501,6 +501,19 @@ def gen(ctx, emit):
                 emit("ec_shared %s %d %s" % (tok, e, show_pt(P3)))
             for e, b in ((5, 0), (5, 1), (5, n - 1), (5, n), (n - 1, n - 5), (0, 7), (-1, 2 ** 256 - 1), (n, n), (2 ** 256 - 1, 2 ** 255)):
                 emit("ec_blindmul %s %d %d" % (tok, e, b))
+            # finite points with a ZERO coordinate (x = 0 exists when b is a square: secp256r1; none on secp256k1): a test
+            # for infinity written as truthiness of the coordinates takes them for the point at infinity
+            y0 = pow(cb % p, (p + 1) // 4, p)
+            if name != "bls12_381" and (y0 * y0 - cb) % p == 0 and y0 != 0:
+                for Z in ((0, y0), (0, p - y0)):
+                    for e in (1, 2, 3, 7, -1, n - 1, n, n + 1, 2 ** 255 + 12345):
+                        emit("ec_mul %s %s %d" % (tok, show_pt(Z), e), "zero-coordinate")
+                    emit("ec_add %s %s %s" % (tok, show_pt(Z), show_pt(Z)), "zero-coordinate")
+                    emit("ec_add %s %s %s" % (tok, show_pt(Z), show_pt((0, p - Z[1]))), "zero-coordinate")
+                    emit("ec_add %s %s %s" % (tok, show_pt(Z), show_pt(P1)), "zero-coordinate")
+                    emit("ec_neg %s %s" % (tok, show_pt(Z)), "zero-coordinate")
+                    emit("ec_shared %s 5 %s" % (tok, show_pt(Z)), "zero-coordinate")
+                    emit("ec_shared %s %d %s" % (tok, n - 2, show_pt(Z)), "zero-coordinate")
             for x in (0, 1, 2, 3, 4, 5, 6, 7, p - 1, p - 2, p - 3, P1[0], P2[0]):
                 emit("ec_points_for_x %s %d" % (tok, x))
             for x in (p, p + 1, -1, 2 ** 256, P1[0] + p):  # outside 0 <= x < p: correspondence only
